@@ -6,21 +6,24 @@ From Coq Require Import String Ascii List NArith ZArith QArith Bool Lia.
 From Sylt Require Import Syntax.Resolved.
 From Sylt Require Sem.Values Sem.Runtime Sem.SyltSem.
 From Sylt Require Import Back.IR Back.Emit Back.ScopeProofs.
-From Sylt Require Import Pres.EmitAst Pres.EmitRel Pres.Names Pres.LuaFuel Pres.LuaEv Pres.Preamble Pres.Frag.
-From Sylt Require Import Pres.SimDefs Pres.SimOps Pres.SimVals Pres.SimExpr Pres.LowerShape Pres.SimSteps.
+From Sylt Require Import Pres.EmitAst Pres.EmitRel Pres.Names Pres.LuaFuel Pres.LuaEv Pres.Preamble.
+From Sylt Require Import Pres.Frag.
+From Sylt Require Import Pres.SimDefs Pres.SimOps Pres.SimVals.
+From Sylt Require Import Pres.SimExpr Pres.LowerShape Pres.SimSteps.
 From Sylt Require Import Lua.LuaAst Lua.LuaMap Lua.LuaNum Lua.LuaProofs Lua.LuaCore.
 Import ListNotations.
 Local Open Scope N_scope.
 
 Section Sim.
 Variable pv : N.
+Variable sv : N.
 Variable bound : N.
 Variable u : counts.
 
 Notation okstep := (okstep pv bound).
 Notation rel := (rel pv bound).
 Notation ctx_ok := (ctx_ok bound).
-Notation P_eval := (P_eval pv bound u).
+Notation P_eval := (P_eval pv sv bound u).
 Notation eval_post := (eval_post pv bound u).
 
 Lemma okstep_trans sc e st2 F F1 F2 c c0 c1 E stL b1 E1 stL1 b2 E2 stL2 st1 :
@@ -137,7 +140,7 @@ Qed.
 Lemma eval_two n g k x1 x2 ctx c code_a va c0 code_b vb c1 c' e st sc l E stL F :
   P_eval n ->
   expression g x1 ctx c = Ok ((code_a, va), c0) -> expression g x2 ctx c0 = Ok ((code_b, vb), c1) ->
-  frag_expr pv k sc x1 = true -> frag_expr pv k sc x2 = true ->
+  frag_expr pv sv bound k sc x1 = true -> frag_expr pv sv bound k sc x2 = true ->
   ucovers u code_a -> ucovers u code_b -> c1 <= c' -> ctx_ok l F E c c' -> rel sc e st E stL ->
   exists b1 l1 b2 l2,
     cshape u l code_a b1 l1 c c0 /\ cshape u l1 code_b b2 l2 c0 c1 /\
@@ -156,10 +159,10 @@ Lemma eval_two n g k x1 x2 ctx c code_a va c0 code_b vb c1 c' e st sc l E stL F 
     end.
 Proof.
   intros IH Ha Hb Hfa Hfb Hua Hub Hc1 Hctx Hrel.
-  destruct (L_expr_all pv u g k x1 ctx c code_a va c0 sc l Ha Hfa) as (b1' & l1' & Hs1' & Hva1 & Hva2).
+  destruct (L_expr_all pv sv bound u g k x1 ctx c code_a va c0 sc l Ha Hfa) as (b1' & l1' & Hs1' & Hva1 & Hva2).
   pose proof Hs1' as (_ & Hc0 & _).
   assert (Hsb : forall l0, exists b2 l2, cshape u l0 code_b b2 l2 c0 c1 /\ c0 <= vb /\ vb < c1)
-    by (intros l0; apply (L_expr_all pv u g k x2 ctx c0 code_b vb c1 sc l0 Hb Hfb)).
+    by (intros l0; apply (L_expr_all pv sv bound u g k x2 ctx c0 code_b vb c1 sc l0 Hb Hfb)).
   destruct (Hsb l1') as (b2' & l2' & Hs2' & Hvb1 & Hvb2). pose proof Hs2' as (_ & Hc01 & _).
   assert (Hctxa : ctx_ok l F E c c0) by (eapply ctx_sub; [exact Hctx | lia | lia]).
   assert (Hfail1 : forall r1 st1, SyltSem.eval n e x1 st = (r1, st1) -> (forall v, r1 <> SyltSem.RVal v) ->
@@ -213,7 +216,7 @@ Qed.
    with V<t> already holding the literal `lit` *)
 Lemma sc_branch n g k x2 ctx cb0 code_b vb cb1 c c' e st sc l E stL F t p cond (lit go : bool) :
   P_eval n ->
-  expression g x2 ctx cb0 = Ok ((code_b, vb), cb1) -> frag_expr pv k sc x2 = true ->
+  expression g x2 ctx cb0 = Ok ((code_b, vb), cb1) -> frag_expr pv sv bound k sc x2 = true ->
   ucovers u code_b -> 1 <= count_of u t -> 1 <= count_of u vb ->
   bound <= c -> c <= cb0 -> cb1 <= c' -> c <= t < c' -> ~ (cb0 <= t < cb1) ->
   ctx_ok l F E cb0 cb1 -> rel sc e st E stL ->
@@ -231,7 +234,7 @@ Proof.
   intros IH Hb Hfb Hub Hct Hcvb Hbc Hc0 Hc1 Ht Htb Hctx Hrel Hp Hcell Hlt Hdc.
   pose proof (r_wf _ _ _ _ _ _ _ Hrel) as Hwf. pose proof (r_linv _ _ _ _ _ _ _ Hrel) as Hli.
   assert (Hsb : forall l0, exists b2 l2, cshape u l0 code_b b2 l2 cb0 cb1 /\ cb0 <= vb /\ vb < cb1)
-    by (intros l0; apply (L_expr_all pv u g k x2 ctx cb0 code_b vb cb1 sc l0 Hb Hfb)).
+    by (intros l0; apply (L_expr_all pv sv bound u g k x2 ctx cb0 code_b vb cb1 sc l0 Hb Hfb)).
   (* the block, given the block of code_b *)
   assert (Hmk : forall b2 l2, cshape u l code_b b2 l2 cb0 cb1 ->
             cshape u l (IIf cond :: (code_b ++ [IAssign t vb]) ++ [IEnd])
@@ -305,7 +308,7 @@ Definition sc_go (mid : option N) (ba : bool) : bool := match mid with Some _ =>
 (* everything after the first operand of and (mid = None, lit = false) / or (mid = Some neg_a, lit = true) *)
 Lemma sc_tail n g k x2 ctx c0 code_b vb c1 c c' e st1 sc l1 E1 stL1 F1 t fl mid va (lit ba : bool) :
   P_eval n ->
-  expression g x2 ctx c0 = Ok ((code_b, vb), c1) -> frag_expr pv k sc x2 = true -> ucovers u code_b ->
+  expression g x2 ctx c0 = Ok ((code_b, vb), c1) -> frag_expr pv sv bound k sc x2 = true -> ucovers u code_b ->
   1 <= count_of u t -> 1 <= count_of u fl -> 1 <= count_of u vb ->
   bound <= c -> c <= c0 -> c1 <= t < c' -> c1 <= fl < c' -> t <> fl ->
   (forall na, mid = Some na -> c1 <= na < c' /\ na <> t /\ na <> fl /\ 1 <= count_of u na) ->
@@ -322,14 +325,14 @@ Lemma sc_tail n g k x2 ctx c0 code_b vb c1 c c' e st1 sc l1 E1 stL1 F1 t fl mid 
     end.
 Proof.
   intros IH Hm0 Hfr Hub Hct Hcfl Hcvb Hbc Hc0 Htr' Hflr' Htfl Hmid Hvalt Hctx1 Hrel1 Hd1.
-  destruct (L_expr_all pv u g k x2 ctx c0 code_b vb c1 sc l1 Hm0 Hfr) as (_ & _ & (_ & Hc01 & _) & Hvb1 & Hvb2).
+  destruct (L_expr_all pv sv bound u g k x2 ctx c0 code_b vb c1 sc l1 Hm0 Hfr) as (_ & _ & (_ & Hc01 & _) & Hvb1 & Hvb2).
   assert (Hbt : bound <= t) by (destruct Hctx1; lia).
   assert (Hctxt : ctx_ok l1 F1 E1 t (t + 1)) by (eapply ctx_sub; [exact Hctx1 | lia | lia]).
   assert (Htr : t <= t < t + 1) by lia.
   assert (Hflr : fl <= fl < fl + 1) by lia.
   (* local V<t> = nil *)
   destruct (step_define_temp pv bound u sc e st1 F1 t (t + 1) E1 stL1 l1 t Hrel1 Hctxt Htr Hct)
-    as (E2 & stL2 & p & Hokd & Hp).
+    as (E2 & stL2 & p & Hokd & Hp & _).
   pose proof Hokd as (_ & _ & Hrel2 & _). destruct (okstep_lframe _ _ _ _ _ _ _ _ _ _ _ _ Hokd) as (Hfd & Hnd).
   (* the literal *)
   assert (Hctx2f : ctx_ok l1 F1 E2 fl (fl + 1)).
@@ -462,15 +465,234 @@ Proof.
     end.
 Qed.
 
+(* ------------------------------------------------------------------ if / elif / else *)
+
+Definition if_go (n : nat) (e : senv) : list ifbranch -> SyltSem.M sval :=
+  fix go (brs : list ifbranch) : SyltSem.M sval :=
+    match brs with
+    | [] => SyltSem.ret (SV Values.VLuaNil)
+    | IfBranch (Some cond) body _ :: brs' =>
+        SyltSem.bind (SyltSem.eval n e cond) (fun c => SyltSem.bind (SyltSem.truth "if" c) (fun bc =>
+          if bc then SyltSem.block_value n e body else go brs'))
+    | IfBranch None body _ :: _ => SyltSem.block_value n e body
+    end.
+
+Lemma seval_if n e brs sp : SyltSem.eval (S n) e (EIf brs sp) = if_go n e brs.
+Proof. reflexivity. Qed.
+
+Notation P_bv := (P_bv pv sv bound u).
+Notation bv_post := (bv_post pv bound).
+
+Lemma ctx_lut l F E a b l' x y :
+  ctx_ok l F E a b -> lut_frame l l' x y -> bound <= x -> (y <= a \/ b <= x) -> ctx_ok l' F E a b.
+Proof.
+  intros [Hb Hl HF HE] Hfr Hbx Hd. constructor; auto.
+  intros t Ht. rewrite Hfr; [apply Hl; exact Ht|]. lia.
+Qed.
+
+(* the value of an if-expression: left in the cell p of the result variable *)
+Definition brs_post (ctx : N) (sc : list N) (e : senv) (F : list N) (lo hi : N) (E : env) (stL : state) (b : block)
+           (p : positive) (r : SyltSem.res sval) (st' : sstate) : Prop :=
+  match r with
+  | SyltSem.RVal v =>
+      exists E' stL' F', okstep sc e st' F lo hi E stL b E' stL' F' /\ vrel v (get_cell stL' p)
+  | _ => xpost ctx sc e lo hi E stL b r st'
+  end.
+
+(* an if statement whose chosen block ran normally; the environment is the one before the if again *)
+Lemma okstep_if sc e st st2 F lo hi E stL cnd t f vc stc Ein stL' :
+  rel sc e st E stL -> Eval E cnd stL (ROk vc stc) -> cells_ext stL stc ->
+  nolabel (if truthy vc then t else f) ->
+  ExecS E (if truthy vc then t else f) stc (ROk (Ein, SigNormal) stL') ->
+  rel sc e st2 E stL' -> xkeep bound lo hi E stc stL' ->
+  okstep sc e st2 F lo hi E stL [SIf cnd t f] E stL' F.
+Proof.
+  intros Hrel Hev Hx Hnl Hxs Hrel' Hk.
+  pose proof (r_wf _ _ _ _ _ _ _ Hrel) as Hwf.
+  split; [apply ExecS_one; eapply Exec_if; [exact Hev | apply ExecBlock_of_ExecS_nil; eassumption]|].
+  split; [|split; [exact Hrel' | split; [apply F_new_refl | apply keep_refl]]].
+  destruct (xkeep_cells_ext bound lo hi E stL stc stL' Hwf Hx Hk) as [Hn Hc].
+  constructor; auto.
+Qed.
+
+Lemma branches_sim n g : P_eval n -> P_bv n ->
+  forall brs k ctx c codes c' e st r st' sc l E stL F out p lo hi,
+    if_go n e brs st = (r, st') ->
+    mapM (lower_if_branch (statement g) (expression g) out ctx) brs c = Ok (codes, c') ->
+    frag_branches pv sv bound k sc brs = true ->
+    ucovers u (concat codes ++ map (fun _ => IEnd) brs) -> ctx_ok l F E c c' -> rel sc e st E stL ->
+    bound <= lo -> lo <= c -> c' <= hi -> lo <= out < hi -> ~ (c <= out < c') ->
+    sget (fmt_var out) E = Some p -> get_cell stL p = VNil -> alut_get l out = None -> 1 <= count_of u out ->
+    ~ In out F ->
+    interesting r ->
+    exists b l', cshape u l (concat codes ++ map (fun _ => IEnd) brs) b l' c c' /\ alut_get l' out = None /\
+                 brs_post ctx sc e F lo hi E stL b p r st'.
+Proof.
+  intros IHe IHb. induction brs as [|[[cond|] body bsp] brs IH];
+    intros k ctx c codes c' e st r st' sc l E stL F out p lo hi Hev Hm Hf Hu Hctx Hrel Hblo Hlc Hch Hout Hoc Hp Hcell Hlout Hcout HoutF Hint.
+  - (* no branch left *)
+    destruct (mapM_nil_ok _ _ _ _ Hm) as [-> ->]. cbn in Hev. inversion Hev; subst r st'.
+    eexists _, _. split; [apply cshape_nil|]. split; [exact Hlout|].
+    cbn [brs_post]. exists E, stL, F. split; [apply okstep_refl; exact Hrel | rewrite Hcell; constructor].
+  - (* a conditional branch *)
+    destruct k as [|k]; [discriminate|]. rewrite frag_branches_some in Hf. frag_split Hf.
+    destruct (frag_stmts pv sv bound k sc body) as [scb|] eqn:Hfb; [|discriminate Hfr0].
+    apply mapM_cons_ok in Hm as (y & c1 & ys & Hy & Hys & ->).
+    unfold lower_if_branch in Hy. mon Hy. destruct a as [code_c vc]. cbn [fst snd] in *. rename a0 into blk.
+    (* structure *)
+    destruct (L_expr_all pv sv bound u g k cond ctx c code_c vc c0 sc l Hm Hf) as (bc0 & lc0 & Hsc0 & Hvc1 & Hvc2).
+    pose proof Hsc0 as (_ & Hc0 & _).
+    assert (HLb : forall l0, exists bb l2, cshape u l0 blk bb l2 c0 c1)
+      by (intros l0; eapply (L_eblock pv sv bound u g (L_expr_all pv sv bound u g) (L_stmts_all pv sv bound u g)); eassumption).
+    assert (HLr : forall l0, exists br l3, cshape u l0 (concat ys ++ map (fun _ : ifbranch => IEnd) brs) br l3 c1 c')
+      by (intros l0; eapply (L_branches pv sv bound u g (L_expr_all pv sv bound u g) (L_stmts_all pv sv bound u g)); eassumption).
+    destruct (HLb l) as (_ & _ & (_ & Hc01 & _)). destruct (HLr l) as (_ & _ & (_ & Hc1' & _)).
+    assert (Hcode : concat ((code_c ++ [IIf vc] ++ blk ++ [IElse]) :: ys) ++ map (fun _ : ifbranch => IEnd) (IfBranch (Some cond) body bsp :: brs)
+                    = code_c ++ (IIf vc :: blk ++ IElse :: (concat ys ++ map (fun _ : ifbranch => IEnd) brs) ++ [IEnd])).
+    { cbn [concat map]. rewrite <- (map_const_snoc IEnd brs). cbn [app]. rewrite <- !app_assoc. cbn [app]. rewrite <- !app_assoc. reflexivity. }
+    rewrite Hcode in *.
+    apply ucovers_app in Hu as [Huc Hu]. apply ucovers_cons in Hu as [Huif Hu]. apply ucovers_app in Hu as [Hub Hu].
+    apply ucovers_cons in Hu as [_ Hu]. apply ucovers_app in Hu as [Hur _].
+    assert (Hcvc : 1 <= count_of u vc) by (apply Huif; left; reflexivity).
+    (* the block for given sub-blocks *)
+    assert (Hmk : forall bc l1 bb l2 br l3, cshape u l code_c bc l1 c c0 -> cshape u l1 blk bb l2 c0 c1 ->
+              cshape u l2 (concat ys ++ map (fun _ : ifbranch => IEnd) brs) br l3 c1 c' ->
+              cshape u l (code_c ++ (IIf vc :: blk ++ IElse :: (concat ys ++ map (fun _ : ifbranch => IEnd) brs) ++ [IEnd]))
+                     (bc ++ [SIf (aexpand l1 vc) bb br]) l3 c c' /\ alut_get l3 out = alut_get l out).
+    { intros bc l1 bb l2 br l3 H1 H2 H3. split.
+      - eapply cshape_app'; [eapply cshape_widen; [exact H1 | lia | lia]|].
+        eapply cshape_ifelse; (eapply cshape_widen; [eassumption | lia | lia]).
+      - destruct H1 as (_ & _ & Hf1 & _). destruct H2 as (_ & _ & Hf2 & _). destruct H3 as (_ & _ & Hf3 & _).
+        rewrite Hf3 by lia. rewrite Hf2 by lia. apply Hf1. lia. }
+    assert (Hctxc : ctx_ok l F E c c0) by (eapply ctx_sub; [exact Hctx | lia | lia]).
+    change (if_go n e (IfBranch (Some cond) body bsp :: brs))
+      with (SyltSem.bind (SyltSem.eval n e cond) (fun c => SyltSem.bind (SyltSem.truth "if" c) (fun bc =>
+              if bc then SyltSem.block_value n e body else if_go n e brs))) in Hev.
+    unfold SyltSem.bind at 1 in Hev.
+    destruct (SyltSem.eval n e cond st) as [rc st1] eqn:Hec.
+    destruct rc as [vc_|o|cc].
+    2,3: (inversion Hev; subst;
+          destruct (IHe g k cond ctx c code_c vc c0 e st _ st' sc l E stL F Hec Hm Hf Huc Hctxc Hrel Hint) as (bc & l1 & Hs1 & _ & _ & Hp1);
+          destruct (HLb l1) as (bb & l2 & Hs2); destruct (HLr l2) as (br & l3 & Hs3);
+          destruct (Hmk bc l1 bb l2 br l3 Hs1 Hs2 Hs3) as (Hshape & Hlo);
+          eexists _, _; (split; [exact Hshape|]); (split; [rewrite Hlo; exact Hlout|]);
+          cbn [brs_post eval_post] in *; eapply exit_app; [eapply (xpost_widen ctx sc e c c0 lo hi); [exact Hp1 | lia | lia] | apply N.le_refl]).
+    destruct (IHe g k cond ctx c code_c vc c0 e st _ st1 sc l E stL F Hec Hm Hf Huc Hctxc Hrel I)
+      as (bc & l1 & Hs1 & _ & _ & E1 & stL1 & F1 & Hok1 & Hd1). specialize (Hd1 Hcvc).
+    pose proof Hok1 as (_ & Hf1 & Hrel1 & Hn1 & _).
+    assert (Hctx1 : ctx_ok l1 F1 E1 c0 c') by (eapply ctx_after; eassumption).
+    pose proof (r_wf _ _ _ _ _ _ _ Hrel1) as Hwf1. pose proof (r_linv _ _ _ _ _ _ _ Hrel1) as Hli1.
+    destruct (denotes_now _ _ _ _ _ Hd1 Hwf1 Hli1) as (lvc & Hvvc & stc & Hevc & _ & Hxc).
+    unfold SyltSem.bind at 1 in Hev.
+    assert (Hbc : exists bcv, vc_ = SV (Values.VBool bcv)).
+    { inversion Hvvc; subst; cbn in Hev; inversion Hev; subst; try destruct Hint. eauto. }
+    destruct Hbc as [bcv ->]. cbn [SyltSem.truth SyltSem.ret] in Hev. inversion Hvvc; subst lvc.
+    assert (Hrelc : rel sc e st1 E1 stc) by (eapply rel_cells_ext; eassumption).
+    assert (Hblo' : bound <= out) by lia.
+    assert (Hp1 : sget (fmt_var out) E1 = Some p) by (apply (wr_incl _ _ _ _ _ _ _ Hf1); assumption).
+    assert (Hcellc : get_cell stc p = VNil).
+    { rewrite <- Hcell. rewrite <- (wr_cells _ _ _ _ _ _ _ Hf1 out p Hblo' ltac:(lia) Hp). apply Hxc. eapply wf_alloc; eassumption. }
+    assert (Hl1out : alut_get l1 out = None) by (destruct Hs1 as (_ & _ & Hfr1 & _); rewrite Hfr1 by lia; exact Hlout).
+    assert (Hout1 : ~ In out F1).
+    { intros Hin. destruct Hn1 as [_ Hn1]. destruct (Hn1 out Hin) as [H|H]; [contradiction | lia]. }
+    assert (Hokc : okstep sc e st1 F lo hi E stL bc E1 stL1 F1) by (eapply okstep_widen; [exact Hok1 | lia | lia]).
+    destruct bcv.
+    + (* the branch is taken *)
+      assert (Hctxb : ctx_ok l1 F1 E1 c0 c1) by (eapply ctx_sub; [exact Hctx1 | lia | lia]).
+      destruct (IHb g k body ctx c0 blk c1 e st1 r st' sc scb l1 E1 stc F1 out p lo hi Hev Hm0 Hfb Hub Hctxb Hrelc Hblo)
+        as (bb & l2 & Hs2 & Hpb); try assumption; try lia.
+      destruct (HLr l2) as (br & l3 & Hs3).
+      destruct (Hmk bc l1 bb l2 br l3 Hs1 Hs2 Hs3) as (Hshape & Hlo).
+      eexists _, _. split; [exact Hshape|]. split; [rewrite Hlo; exact Hlout|].
+      destruct r as [v|o|cc]; cbn [bv_post brs_post] in *.
+      * destruct Hpb as (Ein & stL' & Hxb & Hrelb & Hkb & Hvb).
+        exists E1, stL', F1. split; [|exact Hvb].
+        eapply okstep_trans'; [exact Hokc|].
+        eapply (okstep_if sc e st1 st' F1 lo hi E1 stL1 (aexpand l1 vc) bb br (VBool true) stc Ein stL'); try assumption.
+        cbn [truthy]. apply Hs2.
+      * eapply okstep_exit'; [exact Hokc | exact Hrel |].
+        eapply (exit_if pv bound ctx sc e lo hi E1 stL1 (aexpand l1 vc) bb br (VBool true) stc); [exact Hwf1 | exact Hevc | exact Hxc | cbn [truthy]; apply Hs2 | exact Hpb].
+      * eapply okstep_exit'; [exact Hokc | exact Hrel |].
+        eapply (exit_if pv bound ctx sc e lo hi E1 stL1 (aexpand l1 vc) bb br (VBool true) stc); [exact Hwf1 | exact Hevc | exact Hxc | cbn [truthy]; apply Hs2 | exact Hpb].
+    + (* the next branch *)
+      destruct (HLb l1) as (bb & l2 & Hs2).
+      assert (Hctxr : ctx_ok l2 F1 E1 c1 c').
+      { eapply (ctx_lut l1 F1 E1 c1 c' l2 c0 c1); [eapply ctx_sub; [exact Hctx1 | lia | lia] | apply Hs2 | destruct Hctx1; lia | left; lia]. }
+      assert (Hl2out : alut_get l2 out = None) by (destruct Hs2 as (_ & _ & Hfr2 & _); rewrite Hfr2 by lia; exact Hl1out).
+      destruct (IH k ctx c1 ys c' e st1 r st' sc l2 E1 stc F1 out p lo hi Hev Hys Hfr Hur Hctxr Hrelc Hblo)
+        as (br & l3 & Hs3 & Hl3out & Hpr); try assumption; try lia.
+      destruct (Hmk bc l1 bb l2 br l3 Hs1 Hs2 Hs3) as (Hshape & Hlo).
+      eexists _, _. split; [exact Hshape|]. split; [rewrite Hlo; exact Hlout|].
+      destruct r as [v|o|cc]; cbn [brs_post] in *.
+      * destruct Hpr as (Ein & stL' & Fin & (Hxr & Hfr' & Hrelr & Hnr & Hkr) & Hvr).
+        exists E1, stL', F1. split; [|exact Hvr].
+        eapply okstep_trans'; [exact Hokc|].
+        eapply (okstep_if sc e st1 st' F1 lo hi E1 stL1 (aexpand l1 vc) bb br (VBool false) stc Ein stL'); try assumption.
+        -- cbn [truthy]. apply Hs3.
+        -- eapply (rel_restrict pv bound sc e st1 e st' E1 Ein stc stL'); [exact Hrelc | exact Hrelr | exact Hkr | apply (wr_ncell _ _ _ _ _ _ _ Hfr')].
+        -- split; [apply (wr_ncell _ _ _ _ _ _ _ Hfr')|]. intros t q Hbt Hr Hq. apply (wr_cells _ _ _ _ _ _ _ Hfr' t q Hbt Hr Hq).
+      * eapply okstep_exit'; [exact Hokc | exact Hrel |].
+        eapply (exit_if pv bound ctx sc e lo hi E1 stL1 (aexpand l1 vc) bb br (VBool false) stc); [exact Hwf1 | exact Hevc | exact Hxc | cbn [truthy]; apply Hs3 | exact Hpr].
+      * eapply okstep_exit'; [exact Hokc | exact Hrel |].
+        eapply (exit_if pv bound ctx sc e lo hi E1 stL1 (aexpand l1 vc) bb br (VBool false) stc); [exact Hwf1 | exact Hevc | exact Hxc | cbn [truthy]; apply Hs3 | exact Hpr].
+  - (* the else branch *)
+    destruct k as [|k]; [discriminate|]. rewrite frag_branches_none in Hf. destruct brs; [|discriminate Hf].
+    destruct (frag_stmts pv sv bound k sc body) as [scb|] eqn:Hfb; [|discriminate Hf].
+    apply mapM_cons_ok in Hm as (y & c1 & ys & Hy & Hys & ->). destruct (mapM_nil_ok _ _ _ _ Hys) as [-> <-].
+    unfold lower_if_branch in Hy. mon Hy. fresh_all. rename a0 into blk.
+    match goal with H : lower_eblock _ _ _ _ _ _ = Ok _ |- _ => rename H into Hmb end.
+    assert (Hcode : concat [[IBool c true; IIf c] ++ blk] ++ map (fun _ : ifbranch => IEnd) [IfBranch None body bsp]
+                    = IBool c true :: IIf c :: blk ++ [IEnd]) by (cbn [concat map app]; rewrite app_nil_r; reflexivity).
+    rewrite Hcode in *.
+    apply ucovers_cons in Hu as [_ Hu]. apply ucovers_cons in Hu as [Huif Hu]. apply ucovers_app in Hu as [Hub _].
+    assert (Hcv : 1 <= count_of u c) by (apply Huif; left; reflexivity).
+    destruct (L_eblock pv sv bound u g (L_expr_all pv sv bound u g) (L_stmts_all pv sv bound u g) k out body ctx (c + 1) blk c' sc scb l Hmb Hfb)
+      as (_ & _ & (_ & Hc1 & _)).
+    change (if_go n e [IfBranch None body bsp]) with (SyltSem.block_value n e body) in Hev.
+    assert (Hctxv : ctx_ok l F E c (c + 1)) by (eapply ctx_sub; [exact Hctx | lia | lia]).
+    destruct (finish_iis pv bound u sc e st F c (c + 1) E stL l c (if true then ETrue else EFalse) _ Hrel Hctxv ltac:(lia) (denotes_bool F E stL true))
+      as (E1 & stL1 & F1 & Hok1 & Hd1). specialize (Hd1 Hcv).
+    set (l1 := snd (aiis u l c ETrue)) in *.
+    pose proof Hok1 as (_ & Hf1 & Hrel1 & Hn1 & _).
+    assert (Hsv : cshape u l [IBool c true] (fst (aiis u l c ETrue)) l1 c (c + 1))
+      by (apply (cshape_iis u l (IBool c true) c ETrue c (c + 1)); [lia | reflexivity | reflexivity]).
+    assert (Hctx1 : ctx_ok l1 F1 E1 (c + 1) c') by (eapply ctx_after; eassumption).
+    pose proof (r_wf _ _ _ _ _ _ _ Hrel1) as Hwf1. pose proof (r_linv _ _ _ _ _ _ _ Hrel1) as Hli1.
+    destruct (denotes_now _ _ _ _ _ Hd1 Hwf1 Hli1) as (lvc & Hvvc & stc & Hevc & _ & Hxc). inversion Hvvc; subst lvc.
+    assert (Hrelc : rel sc e st E1 stc) by (eapply rel_cells_ext; eassumption).
+    assert (Hblo' : bound <= out) by lia.
+    assert (Hp1 : sget (fmt_var out) E1 = Some p) by (apply (wr_incl _ _ _ _ _ _ _ Hf1); assumption).
+    assert (Hcellc : get_cell stc p = VNil).
+    { rewrite <- Hcell. rewrite <- (wr_cells _ _ _ _ _ _ _ Hf1 out p Hblo' ltac:(lia) Hp). apply Hxc. eapply wf_alloc; eassumption. }
+    assert (Hl1out : alut_get l1 out = None) by (unfold l1; rewrite aiis_lut by lia; exact Hlout).
+    assert (Hokc : okstep sc e st F lo hi E stL (fst (aiis u l c ETrue)) E1 stL1 F1) by (eapply okstep_widen; [exact Hok1 | lia | lia]).
+    destruct (IHb g k body ctx (c + 1) blk c' e st r st' sc scb l1 E1 stc F1 out p lo hi Hev Hmb Hfb Hub Hctx1 Hrelc Hblo)
+      as (bb & l2 & Hs2 & Hpb); try assumption; try lia.
+    eexists _, _. split; [|split].
+    + eapply cshape_cons'; [eapply cshape_widen; [exact Hsv | lia | lia]|].
+      apply cshape_if. eapply cshape_widen; [exact Hs2 | lia | lia].
+    + destruct Hs2 as (_ & _ & Hfr2 & _). rewrite Hfr2 by lia. exact Hl1out.
+    + destruct r as [v|o|cc]; cbn [bv_post brs_post] in *.
+      * destruct Hpb as (Ein & stL' & Hxb & Hrelb & Hkb & Hvb).
+        exists E1, stL', F1. split; [|exact Hvb].
+        eapply okstep_trans'; [exact Hokc|].
+        eapply (okstep_if sc e st st' F1 lo hi E1 stL1 (aexpand l1 c) bb [] (VBool true) stc Ein stL'); try assumption.
+        cbn [truthy]. apply Hs2.
+      * eapply okstep_exit'; [exact Hokc | exact Hrel |].
+        eapply (exit_if pv bound ctx sc e lo hi E1 stL1 (aexpand l1 c) bb [] (VBool true) stc); [exact Hwf1 | exact Hevc | exact Hxc | cbn [truthy]; apply Hs2 | exact Hpb].
+      * eapply okstep_exit'; [exact Hokc | exact Hrel |].
+        eapply (exit_if pv bound ctx sc e lo hi E1 stL1 (aexpand l1 c) bb [] (VBool true) stc); [exact Hwf1 | exact Hevc | exact Hxc | cbn [truthy]; apply Hs2 | exact Hpb].
+Qed.
+
 Lemma P_eval_zero : P_eval O.
 Proof.
   intros g k x ctx c code v c' e st r st' sc l E stL F Hev _ _ _ _ _ Hint.
   cbn in Hev. inversion Hev; subst. destruct Hint.
 Qed.
 
-Lemma P_eval_succ n : P_eval n -> P_eval (S n).
+Lemma P_eval_succ n : P_eval n -> P_bv n -> P_eval (S n).
 Proof.
-  intros IH g k x ctx c code v c' e st r st' sc l E stL F Hev Hlow Hfrag Hu Hctx Hrel Hint.
+  intros IH IHb g k x ctx c code v c' e st r st' sc l E stL F Hev Hlow Hfrag Hu Hctx Hrel Hint.
   destruct g as [|g]; [discriminate|]. destruct k as [|k]; [discriminate|].
   destruct x; try discriminate Hfrag; cbn [frag_expr] in Hfrag.
   - (* ERead *)
@@ -506,7 +728,7 @@ Proof.
     assert (Hia : interesting ra).
     { destruct ra; cbn in Hev; [exact I | inversion Hev; subst; exact Hint | inversion Hev; subst; exact Hint]. }
     (* structure and usage counts *)
-    destruct (L_expr_all pv u (S g') k a ctx (c + 1) code_a va ca sc l Ha Hfr) as (b0 & l0 & (_ & Hca & _) & Hva1 & Hva2).
+    destruct (L_expr_all pv sv bound u (S g') k a ctx (c + 1) code_a va ca sc l Ha Hfr) as (b0 & l0 & (_ & Hca & _) & Hva1 & Hva2).
     apply ucovers_cons in Hu as [_ Hu]. apply ucovers_app in Hu as [Hua Huc].
     assert (Hcc : 1 <= count_of u c) by (eapply Huc; [left; reflexivity | cbn [ir_uses]; left; reflexivity]).
     assert (Hcva : 1 <= count_of u va) by (eapply Huc; [left; reflexivity | cbn [ir_uses]; right; left; reflexivity]).
@@ -668,10 +890,10 @@ Proof.
         assert (Hcfl : 1 <= count_of u fl) by (apply Hu3; right; left; reflexivity).
         assert (Hcva : 1 <= count_of u va) by (apply Hu4; left; reflexivity).
         assert (Hcvb : 1 <= count_of u vb) by (eapply Huend; [left; reflexivity | right; left; reflexivity]).
-        destruct (L_expr_all pv u g k x1 ctx c code_a va c0 sc l Hm Hfr0) as (b1' & l1' & Hs1' & Hva1 & Hva2).
+        destruct (L_expr_all pv sv bound u g k x1 ctx c code_a va c0 sc l Hm Hfr0) as (b1' & l1' & Hs1' & Hva1 & Hva2).
         pose proof Hs1' as (_ & Hc0 & _).
         assert (Hsb : forall l0, exists b2 l2, cshape u l0 code_b b2 l2 c0 c1 /\ c0 <= vb /\ vb < c1)
-          by (intros l0; apply (L_expr_all pv u g k x2 ctx c0 code_b vb c1 sc l0 Hm0 Hfr)).
+          by (intros l0; apply (L_expr_all pv sv bound u g k x2 ctx c0 code_b vb c1 sc l0 Hm0 Hfr)).
         destruct (Hsb l) as (_ & _ & (_ & Hc01 & _) & Hvb1 & Hvb2).
         assert (Hctxa : ctx_ok l F E c c0) by (eapply ctx_sub; [exact Hctx | lia | unfold t in *; lia]).
         cbn [SyltSem.eval] in Hev. unfold SyltSem.bind at 1 in Hev.
@@ -730,10 +952,10 @@ Proof.
         assert (Hcva : 1 <= count_of u va) by (apply Hu4; left; reflexivity).
         assert (Hcna : 1 <= count_of u c1) by (apply Hu5; left; reflexivity).
         assert (Hcvb : 1 <= count_of u vb) by (eapply Huend; [left; reflexivity | right; left; reflexivity]).
-        destruct (L_expr_all pv u g k x1 ctx c code_a va c0 sc l Hm Hfr0) as (b1' & l1' & Hs1' & Hva1 & Hva2).
+        destruct (L_expr_all pv sv bound u g k x1 ctx c code_a va c0 sc l Hm Hfr0) as (b1' & l1' & Hs1' & Hva1 & Hva2).
         pose proof Hs1' as (_ & Hc0 & _).
         assert (Hsb : forall l0, exists b2 l2, cshape u l0 code_b b2 l2 c0 c1 /\ c0 <= vb /\ vb < c1)
-          by (intros l0; apply (L_expr_all pv u g k x2 ctx c0 code_b vb c1 sc l0 Hm0 Hfr)).
+          by (intros l0; apply (L_expr_all pv sv bound u g k x2 ctx c0 code_b vb c1 sc l0 Hm0 Hfr)).
         destruct (Hsb l) as (_ & _ & (_ & Hc01 & _) & Hvb1 & Hvb2).
         assert (Hctxa : ctx_ok l F E c c0) by (eapply ctx_sub; [exact Hctx | lia | lia]).
         cbn [SyltSem.eval] in Hev. unfold SyltSem.bind at 1 in Hev.
@@ -802,7 +1024,7 @@ Proof.
     { intros c0 code_a va i xf Ha -> -> -> Hsimple Hgen Huse Hsem.
       apply ucovers_app in Hu as [Hua Hui].
       assert (Hcva : 1 <= count_of u va) by (eapply Hui; [left; reflexivity | exact Huse]).
-      destruct (L_expr_all pv u g k x ctx c code_a va c0 sc l Ha Hfrag) as (_ & _ & (_ & Hc0 & _) & Hva1 & Hva2).
+      destruct (L_expr_all pv sv bound u g k x ctx c code_a va c0 sc l Ha Hfrag) as (_ & _ & (_ & Hc0 & _) & Hva1 & Hva2).
       assert (Hctxa : ctx_ok l F E c c0) by (eapply ctx_sub; [exact Hctx | lia | lia]).
       assert (Hev' : SyltSem.bind (SyltSem.eval n e x)
                        (fun sva => match op with
@@ -848,6 +1070,43 @@ Proof.
       destruct (denotes_now _ _ _ _ _ Hd Hwf0 Hl0) as (lv & Hv & _).
       inversion Hv; subst; cbn in Hr; inversion Hr; subst; cbn; auto.
       split; [reflexivity | apply denotes_not; exact Hd].
+  - (* EIf *)
+    change (frag_branches pv sv bound k sc branches = true) in Hfrag.
+    cbn [expression] in Hlow. mon Hlow. fresh_all. inj_code. rename a0 into codes.
+    rewrite seval_if in Hev.
+    apply ucovers_cons in Hu as [Hud Hub].
+    assert (Hcc : 1 <= count_of u c) by (apply Hud; left; reflexivity).
+    destruct (L_branches pv sv bound u g (L_expr_all pv sv bound u g) (L_stmts_all pv sv bound u g) branches k c ctx (c + 1) codes c' sc l Hm0 Hfrag)
+      as (_ & _ & (_ & Hcc' & _)).
+    assert (Hctxd : ctx_ok l F E c (c + 1)) by (eapply ctx_sub; [exact Hctx | lia | lia]).
+    assert (Hcr : c <= c < c + 1) by lia.
+    destruct (step_define_temp pv bound u sc e st F c (c + 1) E stL l c Hrel Hctxd Hcr Hcc) as (E1 & stL1 & p & Hokd & Hp & Hcell).
+    assert (Hsd : cshape u l [IDefine c] (fst (agen_one u l (IDefine c))) l c (c + 1))
+      by (apply cshape_plain; [lia | reflexivity | reflexivity | apply used_plain]).
+    assert (Hctx1 : ctx_ok l F E1 (c + 1) c') by (eapply ctx_after; eassumption).
+    pose proof Hokd as (_ & _ & Hrel1 & _).
+    assert (Hbc : bound <= c) by (destruct Hctx; assumption).
+    assert (Hr1 : c <= c + 1) by lia. assert (Hr2 : c' <= c') by lia. assert (Hr3 : c <= c < c') by lia.
+    assert (Hr4 : ~ (c + 1 <= c < c')) by lia.
+    assert (Hlc : alut_get l c = None) by (apply (cx_lut _ _ _ _ _ _ Hctx); left; lia).
+    assert (HcF : ~ In c F) by (intros Hin; destruct (cx_F _ _ _ _ _ _ Hctx c Hin) as [_ Hn]; apply Hn; lia).
+    destruct (branches_sim n g IH IHb branches k ctx (c + 1) codes c' e st r st' sc l E1 stL1 F c p c c' Hev Hm0 Hfrag Hub Hctx1 Hrel1
+                Hbc Hr1 Hr2 Hr3 Hr4 Hp Hcell Hlc Hcc HcF Hint)
+      as (bb & l' & Hsb & Hl'c & Hpost).
+    eexists _, _. split; [eapply cshape_cons'; [eapply cshape_widen; [exact Hsd | lia | lia] | eapply cshape_widen; [exact Hsb | lia | lia]]|].
+    split; [lia|]. split; [lia|].
+    assert (Hokd' : okstep sc e st F c c' E stL (fst (agen_one u l (IDefine c))) E1 stL1 F) by (eapply okstep_widen; [exact Hokd | lia | lia]).
+    destruct r as [v_|o|cc]; cbn [brs_post eval_post] in *.
+    + destruct Hpost as (E' & stL' & F' & Hokb & Hvb).
+      pose proof Hokb as (_ & Hfb & _ & (Hib & Hnb) & _).
+      exists E', stL', (c :: F'). split.
+      * destruct (okstep_trans' sc e st' F F F' c c' E stL _ E1 stL1 _ E' stL' st Hokd' Hokb) as (Hx & Hf & Hr & (Hi & Hn) & Hk).
+        split; [exact Hx|]. split; [exact Hf|]. split; [exact Hr|]. split; [|exact Hk].
+        split; [apply incl_tl; exact Hi | intros t [<-|Ht]; [right; lia | apply Hn; exact Ht]].
+      * intros _. unfold aexpand. rewrite Hl'c.
+        eapply denotes_local; [left; reflexivity | apply (wr_incl _ _ _ _ _ _ _ Hfb); [lia | exact Hp] | exact Hvb].
+    + eapply okstep_exit'; [exact Hokd' | exact Hrel | exact Hpost].
+    + eapply okstep_exit'; [exact Hokd' | exact Hrel | exact Hpost].
   - (* EInt *)
     cbn [expression] in Hlow. mon Hlow. fresh_all. inj_code.
     cbn in Hev. inversion Hev; subst r st'. clear Hev.
@@ -866,6 +1125,5 @@ Proof.
     cbn [eval_post]. exists E3, stL3, F3. split; assumption.
 Qed.
 
-Theorem P_eval_all n : P_eval n.
-Proof. induction n; [apply P_eval_zero | apply P_eval_succ; assumption]. Qed.
+
 End Sim.
